@@ -351,3 +351,24 @@ def arbitrate(chk, shape_ok: bool, rule: str, key: str, where: str, detail: str,
         return False
     chk.ok(rule, key, where, "shape not recognised; behaviour equals the reference on all raw token streams of length <= 3")
     return True
+
+
+def rule_buffer_evaluation(chk, which: str, rule_id: str):
+    """Unconditional run of the evaluation (small bound in the quick tier, the larger one in the thorough tier)."""
+    thorough = getattr(chk, "tier", "quick") == "thorough"
+    if which == "capture":
+        bound = 4 if thorough else 2
+        und, bad = eval_call_macro_capture(bound)
+        key, where = "consume_macro_params:evaluation", repo.TOKENIZER
+        what = "the call-macro capture differs from its reference (argument = verbatim text between top-level delimiters)"
+    else:
+        bound = 3 if thorough else 2
+        und, bad = eval_peek(bound)
+        key, where = "Tokenizer.peek:evaluation", repo.TOKENIZER
+        what = "peek/getnext differ from their reference (the parser sees exactly the non-blank tokens; string mode remembers every line)"
+    chk.count(rule_id)
+    chk.units[f"{which}_evaluation_bound"] = bound
+    if und:
+        chk.undecided(rule_id, key, where, f"not evaluable: {und}")
+    else:
+        chk.require(not bad, rule_id, key, where, f"{what} on raw token streams of length <= {bound}: {bad[:2]}")
